@@ -185,9 +185,9 @@ type c17GReader struct {
 	exited  chan struct{}
 
 	done    chan struct{} // closed when the RemoveReader call started by the harness has returned
-	open    atomic.Bool  // removal in progress: callbacks no longer block in the gate
-	removed atomic.Bool  // RemoveReader has returned
-	late    atomic.Int32 // callbacks that started after RemoveReader returned
+	open    atomic.Bool   // removal in progress: callbacks no longer block in the gate
+	removed atomic.Bool   // RemoveReader has returned
+	late    atomic.Int32  // callbacks that started after RemoveReader returned
 
 	// model
 	queue      []c17Item
@@ -557,17 +557,17 @@ func TestVerifC17Delivery(t *testing.T) {
 // concurrent variant
 
 type c17CReader struct {
-	id        int
-	r         *Reader
-	subs      map[int]bool
-	mu        sync.Mutex
-	got       map[int][]int // per format: unit numbers in arrival order
-	bad       []string
-	removed   atomic.Bool
-	late      atomic.Int32
-	yields    int
-	stable    bool // attached before the first write, removed after the last one
-	received  atomic.Int64
+	id       int
+	r        *Reader
+	subs     map[int]bool
+	mu       sync.Mutex
+	got      map[int][]int // per format: unit numbers in arrival order
+	bad      []string
+	removed  atomic.Bool
+	late     atomic.Int32
+	yields   int
+	stable   bool // attached before the first write, removed after the last one
+	received atomic.Int64
 }
 
 func c17ParseTag(kind string, p unit.Payload) (fi, n int, err error) {
